@@ -31,7 +31,11 @@ class StatsRun:
         lvl = ch.weighted("cfg.loglevel", [(3, logging.ERROR), (2, logging.INFO)])
         self.timing_on = not ch.flag("cfg.timing_off", 1, 4)     # the manager's -T switch
         self.res.config = dict(timecode=timecode, loglevel=lvl, timing=self.timing_on, forced=self.forced)
-        self.w = World(ch, timecode=timecode, log_level=lvl, send_msg_timing=self.timing_on, p_notwritable=(0, 1),
+        # in some runs ordinary subscribers are sometimes not writable: the resulting FAILED_MESSAGE
+        # notices are themselves messages handled for forwarding
+        self.notw = ch.choose("cfg.notw", [(0, 1), (0, 1), (1, 3), (1, 6)])
+        self.res.config["notw"] = list(self.notw)
+        self.w = World(ch, timecode=timecode, log_level=lvl, send_msg_timing=self.timing_on, p_notwritable=self.notw,
                        max_rounds=600000)
         w = self.w
         w.patch()
@@ -68,11 +72,13 @@ class StatsRun:
             if a.req_id == 0:
                 a.learn_id()
         # optional ordinary subscribers, so forwarding really fans out
-        if ch.flag("cfg.subscriber", 1, 2):
+        if ch.flag("cfg.subscriber", 1, 2) or self.notw[0]:
             s = Actor(w, "sub")
             s.open()
             s.handshake("v2v1", req_id=70, pid=7070)
-            s.subscribe(ch.choose("cfg.subt", [5, 9999, ALL]))
+            s.subscribe(ch.choose("cfg.subt", [5, 9999, ALL, ALL]))
+            if ch.flag("cfg.subfm", 1, 2):
+                s.subscribe(C.MT_FAILED_MESSAGE)
             self.pubs_sub = s
             self.sub = s
         w.quiesce()
@@ -173,6 +179,7 @@ class StatsRun:
             if fr.complete and fr.hdr.msg_type not in NOT_DATA:
                 events.append((fr.done_seq, fr.hdr.msg_type, "client"))
         acks = []
+        optional = []
         for wfr in mon_tx:
             h = wfr.hdr
             if h.send_time >= TAG_BASE:
@@ -184,6 +191,15 @@ class StatsRun:
             if h.msg_type == C.MT_ACKNOWLEDGE and h.num_data_bytes == 0:
                 acks.append(wfr.seq)   # copies to loggers do not go through forwarding
                 continue
+            if h.msg_type == C.MT_FAILED_MESSAGE and len(wfr.payload) >= 64:
+                fm = C.unpack_failed_message(wfr.payload)
+                if fm.hdr.msg_type in STAT_TYPES and fm.hdr.send_time < TAG_BASE:
+                    # a notice about an undeliverable statistics message, raised while that message
+                    # was being sent: whether it counts is not determined by the statement
+                    optional.append(wfr.seq)
+                    res.probes["notice_about_stats_message"] += 1
+                    continue
+                res.probes["notices_counted"] += 1
             events.append((wfr.seq, h.msg_type, "manager"))
         events.sort()
         # when did the monitor's view become complete?
@@ -222,9 +238,12 @@ class StatsRun:
             exp = counts_between(prev.seq, wfr.seq)
             res.probes["timing_reports_checked"] += 1
             nz = {i: v for i, v in enumerate(arr) if v}
+            n_opt = sum(1 for s_ in optional if prev.seq < s_ < wfr.seq)
             for t in set(nz) | {t for t in exp if 0 <= t < 10000}:
                 want = exp.get(t, 0) & 0xFFFF
                 got = nz.get(t, 0)
+                if t == C.MT_FAILED_MESSAGE and want <= got <= want + n_opt:
+                    continue
                 if got != want:
                     res.add("C18", "timing_count",
                             f"TIMING_MESSAGE (msg_count {wfr.hdr.msg_count}) reports {got} messages of type {t}; "
@@ -278,6 +297,7 @@ class StatsRun:
                 continue
             exp = counts_between(prev_seq, first)
             n_acks = sum(1 for s in acks if prev_seq < s < first)
+            n_opt = sum(1 for s_ in optional if prev_seq < s_ < first)
             listed = Counter()
             got = {}
             for wfr, sub_seqno, types, cnts in subs:
@@ -297,7 +317,7 @@ class StatsRun:
                         f"MESSAGE_TRAFFIC seqno {seqno}: type {dup[0]} is listed {listed[dup[0]]} times across its "
                         f"{len(subs)} sub-messages")
             for t in got:
-                if t not in exp and not (t == C.MT_ACKNOWLEDGE and n_acks):
+                if t not in exp and not (t == C.MT_ACKNOWLEDGE and n_acks) and not (t == C.MT_FAILED_MESSAGE and n_opt):
                     res.add("C18", "traffic_bogus_entry",
                             f"MESSAGE_TRAFFIC seqno {seqno}: lists type {t} (count {got[t]}) which was not seen in the interval")
                     break
@@ -307,7 +327,7 @@ class StatsRun:
                     res.add("C18", "traffic_missing_type", f"MESSAGE_TRAFFIC seqno {seqno}: type {t} was seen {want}x "
                                                            f"but is not listed")
                     break
-                lo, hi = want, want + (n_acks if t == C.MT_ACKNOWLEDGE else 0)
+                lo, hi = want, want + (n_acks if t == C.MT_ACKNOWLEDGE else 0) + (n_opt if t == C.MT_FAILED_MESSAGE else 0)
                 if not (lo & 0xFFFF) <= g <= max(hi & 0xFFFF, lo & 0xFFFF) and listed[t] == 1:
                     res.add("C18", "traffic_count", f"MESSAGE_TRAFFIC seqno {seqno}: type {t} count {g}, expected {want}")
                     break
